@@ -822,7 +822,7 @@ def escape_families(tier):
     return out
 
 
-def lex_time_small(text, repeat=3, limit=4.0):
+def lex_time_small(text, repeat=3, limit=4.0, stop_at_error=False):
     """Like lex_time for inputs of a few hundred characters: the warm-up run is
     timed too (no memory effects at this size) and the watchdog is short.
     -> (seconds, tokens, errors) | ('timeout', 'run', limit)."""
@@ -835,7 +835,7 @@ def lex_time_small(text, repeat=3, limit=4.0):
         for _ in range(repeat):
             try:
                 signal.setitimer(signal.ITIMER_REAL, limit)
-                dt, ntok, nerr = _lex_once(text)
+                dt, ntok, nerr = _lex_once(text, stop_at_error)
             except LexTimeout:
                 return ("timeout", "run", limit)
             finally:
